@@ -80,6 +80,22 @@ pub mod c_api {
 
     use crate::prelude::{Xcell, Xstate};
 
+    // A cell handed to C owns byte-aligned storage, so that the bytes of every
+    // whole-byte bit-string can be lent out, wherever it was cut from.
+    fn boxed(val: Xcell) -> *mut Xcell {
+        let aligned = match val.value() {
+            Xcell::Bitstr(s) if s.is_bytestr() && s.slice().is_none() => {
+                let copy = Xcell::Bitstr(s.clone().detach());
+                Some(match val.tags() {
+                    Some(tags) => copy.with_tags(tags.clone()),
+                    None => copy,
+                })
+            }
+            _ => None,
+        };
+        Box::into_raw(Box::new(aligned.unwrap_or(val)))
+    }
+
     #[no_mangle]
     pub unsafe extern "C" fn xeh_open() -> *mut Xstate {
         match Xstate::boot() {
@@ -198,7 +214,7 @@ pub mod c_api {
         match (*val).value() {
             Xcell::Vector(v) => {
                 if let Some(c) = v.get(idx) {
-                    Box::into_raw(Box::new(c.clone()))
+                    boxed(c.clone())
                 } else {
                     null_mut()
                 }
@@ -218,7 +234,7 @@ pub mod c_api {
     pub unsafe extern "C" fn xeh_pop(xs: *mut Xstate) -> *mut Xcell {
         let mut xs = Box::from_raw(xs);
         let result = if let Ok(val) = xs.pop_data() {
-            Box::into_raw(Box::new(val))
+            boxed(val)
         } else {
             null_mut()
         };
